@@ -27,7 +27,10 @@
     completion; nothing for the fixpoint-initial memo), not what it has read since.
   * `c12rev_le_post`: soundness in one direction for EVERY history (writes included): if `B`
     is a post-fixpoint of the equations at the inputs of every request of the history, every
-    answer is a subset of `B` (programs without `FallbackImmediate` and without `add`).  No
+    answer is a subset of `B` (programs without `FallbackImmediate` and in the body language of
+    `Model/Cycle.lean`: `NoAdd` excludes `add` AND the value-controlled `gate`, for which that
+    model has no reference `lfp`; gated programs are tied to salsa by the differential runs and
+    checked against the Kleene oracle of the harness only).  No
     stale value can exceed such a bound; kf2's stale value is a too SMALL one.
   * `c12rev_le_lfp`: one revision on a fresh database, any sequence of requests: every answer
     is a subset of `lfp`.
@@ -183,6 +186,14 @@ example : (3 : Nat) = Cycle.lfp (toCycle kf2P) (envOfVals [3, 6]) 1 :=
 
 /-- … and the certificate FAILS for the stale answer of the witness (it detects the finding). -/
 example : certB kf2P (run kf2P (St.init 3 [(3, 0), (6, 0)]) kf2Ops) 0 2 = false := by decide
+
+/-- value-controlled gates (outside `NoAdd`; model = salsa byte for byte on 500 000 generated gated
+    cases): on `gatedP` with inputs 4, 8, 32 the model answers the least fixpoint
+    `q1 = 8 ∪ 1 ∪ 32 = 41`, `q0 = 4 ∪ 41 = 45` from either entry (three resp. two iterations). -/
+example :
+    outputs gatedP (St.init 2 [(4, 0), (8, 0), (32, 0)]) [.get 0, .get 1] = [.value 45, .value 41] ∧
+    outputs gatedP (St.init 2 [(4, 0), (8, 0), (32, 0)]) [.get 1, .get 0] = [.value 41, .value 45] := by
+  decide
 
 /-- `c12rev_le_post` with writes: `B` = everything (255) is a post-fixpoint at all inputs. -/
 example : PostHist kf2P (fun _ => 255) (St.init 3 [(3, 0), (6, 0)]) kf2Ops :=
